@@ -209,6 +209,10 @@ def _nonzero_mod(facts, q, N):
 
 def _residue_gate(facts, pt, x, A, B, Pm):
     names = {x: "x", pt[1]: "y"} if isinstance(pt[1], Term) else {x: "x"}
+    beta = _beta_of(pt[1], Pm)
+    if beta is not None:
+        # y is the root beta or P − beta: a gate written on beta (beta·beta ≡ x³ + Ax + B) is a gate on y (same square)
+        names = {x: "x", beta: "y"}
     want = Poly.var("x", Pm) ** 3 + Poly.const(A, Pm) * Poly.var("x", Pm) + Poly.const(B, Pm) - (to_poly(pt[1], Pm, names) ** 2)
     if pt[0] is not x:
         return False
